@@ -17,28 +17,53 @@
 
 package sql
 
+import (
+	"context"
+
+	"seata.apache.org/seata-go/pkg/util/log"
+)
+
 type XATx struct {
 	tx *Tx
+	// xaConn is the connection whose XA branch this transaction is
+	xaConn *XAConn
 }
 
-// Commit do commit action
-// case 1. no open global-transaction, just do local transaction commit
-// case 2. not need flush undolog, is XA mode, do local transaction commit
-// case 3. need run AT transaction
+// Commit ends and prepares the XA branch of the transaction (phase one); the
+// coordinator commits or rolls back the prepared branch in phase two.
 func (tx *XATx) Commit() error {
 	tx.tx.beforeCommit()
 	return tx.commitOnXA()
 }
 
+// Rollback ends the XA branch with failure, rolls it back and reports it.
 func (tx *XATx) Rollback() error {
+	var err error
+	if tx.xaConn != nil && tx.xaConn.xaActive {
+		err = tx.xaConn.Rollback(context.Background())
+	}
+
 	originTx := tx.tx
 	if originTx.tranCtx.OpenGlobalTransaction() && originTx.tranCtx.IsBranchRegistered() {
-		return originTx.report(false)
+		if rerr := originTx.report(false); err == nil {
+			err = rerr
+		}
 	}
-	return nil
+	return err
 }
 
-// commitOnXA commit xa and register branch transaction
+// commitOnXA XA END + XA PREPARE; a failure rolls the branch back, is reported
+// to the coordinator and returned to the caller
 func (tx *XATx) commitOnXA() error {
+	if tx.xaConn == nil || !tx.xaConn.xaActive {
+		return nil
+	}
+
+	if err := tx.xaConn.Commit(context.Background()); err != nil {
+		if rerr := tx.tx.report(false); rerr != nil {
+			log.Errorf("report xa branch failure xid:%s, err:%v", tx.tx.tranCtx.XID, rerr)
+		}
+		return err
+	}
 	return nil
 }
